@@ -55,3 +55,28 @@ Theorem C19_len_spellings : forall v,
   apply GEQ zero_lit (len_of v) = Some (false, true, len_of v).
 Proof. exact len_spellings. Qed.
 Print Assumptions C19_len_spellings.
+
+(* AddNilCheck on nested conditions (the prologue's negation case and the matcher that compares a check with a
+   boolean constant call AddNilCheck again): the translator recognised both shapes *)
+Theorem C19_nested_shape : not_swaps_gen = true /\ (forall o x y, checke (ECmp o (EOp x) (EOp y)) = apply o x y).
+Proof. exact (conj not_swaps check_atoms). Qed.
+Print Assumptions C19_nested_shape.
+
+Theorem C19_branch_attribution_nested : forall e t f s,
+  wf_expr e -> checke e = Some (t, f, s) ->
+  (t = true -> ev e = 1 -> subject_nonnil s) /\ (f = true -> ev e = 0 -> subject_nonnil s).
+Proof. exact branch_attribution_nested. Qed.
+Print Assumptions C19_branch_attribution_nested.
+
+Theorem C19_bool_const_spellings : forall v,
+  let c := cmp NEQ (atom (ptr v)) (atom nil_lit) in
+  checke (cmp EQL c (EBool true)) = Some (true, false, ptr v) /\
+  checke (cmp EQL (EBool true) c) = Some (true, false, ptr v) /\
+  checke (cmp NEQ c (EBool false)) = Some (true, false, ptr v) /\
+  checke (cmp NEQ (EBool false) c) = Some (true, false, ptr v) /\
+  checke (cmp EQL c (EBool false)) = Some (false, true, ptr v) /\
+  checke (cmp NEQ (EBool true) c) = Some (false, true, ptr v) /\
+  checke (ENot (cmp EQL c (EBool false))) = Some (true, false, ptr v) /\
+  checke (cmp EQL (cmp NEQ (ENot c) (EBool true)) (EBool true)) = Some (true, false, ptr v).
+Proof. exact bool_const_spellings. Qed.
+Print Assumptions C19_bool_const_spellings.
